@@ -112,7 +112,29 @@ func (w *c01World) parked(kind byte) []*c01Ack {
 	return out
 }
 
+// ackPossible: can an acknowledgement of this kind still arrive, judging by the job's own pending snapshot? Only used
+// to skip a pointless wait; whether a missing acknowledgement is a stall is decided by the driver from the model.
+func (w *c01World) ackPossible(kind byte) bool {
+	w.mu.Lock()
+	job, down := w.job, w.jobDown
+	w.mu.Unlock()
+	if job == nil || down {
+		return false
+	}
+	_, ops, srs, ok := job.VerifStoreC15().VerifPendingC15()
+	if !ok {
+		return false
+	}
+	if kind == 'r' {
+		return len(srs) > 0
+	}
+	return len(srs) == 0 && len(ops) > 0
+}
+
 func (w *c01World) releaseAck(kind byte, j int, grace time.Duration) bool {
+	if grace > 0 && !w.ackPossible(kind) {
+		grace = 20 * time.Millisecond
+	}
 	deadline := time.Now().Add(grace)
 	for {
 		w.mu.Lock()
@@ -930,7 +952,7 @@ func propC01() *lib.Prop {
 		Rule:     "cases = cluster runs (schedule of feeds, checkpoint rounds with forced acknowledgement orders, worker/job kills at chosen points of the round, restarts); every recorded event must be an enabled step of Rxn.Pipeline.step and every handler invocation must be given the model's key state; non-trivial = a deployment restored a published checkpoint after a failure and handler invocations followed it",
 		NumCases: func(tier string) int {
 			if tier == "thorough" {
-				return 640
+				return 320
 			}
 			return 40
 		},
